@@ -223,8 +223,8 @@ theorem exchange_correct (go : GroupOracle h F G) (sid bits : Bytes) (tA rO tb :
   · rw [recvProcess_id]
     simp only
     rw [hrecv]
-    refine ⟨_, ?_, ?_, ?_, ?_⟩
-    · rw [if_neg]
+    refine ⟨(List.range Generated.LAMBDA_C).map (fun idx => if extractBit bits idx = 0 then (si idx).rho.1 else (si idx).rho.2), ?_, ?_, ?_, ?_⟩
+    · rw [if_neg (by simp)]
       simp
     · simp
     · simp
